@@ -95,7 +95,9 @@ def const_val(e):
 def field_stores(facts, adt, field, include_derived=False):
     """all MIR stores into <adt>.<field> in the crate: list of (body, site, stmt)"""
     out = []
-    for b in facts.bodies:
+    # closures absorbed at the combinator that applies them and helpers spliced into every caller are analysed
+    # there (user_bodies): their own bodies would report each store a second time, under the wrong name
+    for b in (facts.bodies if include_derived else facts.user_bodies()):
         if b.is_derived() and not include_derived:
             continue
         for site, st in b.sites():
